@@ -110,3 +110,42 @@ def run(chk):
                 chk.violation('impl-vs-impl', 'cell changed when generators were added outside its safety ball: volume %s -> %s %s' % (fl(vb), fl(va), where), rp, key='addfar')
         chk.nontriv((r.id, 'addfar'))
         chk.traces += 1
+
+
+    # ---- every route that reports a safety radius reports the same one (direct build, Voronoi::from(&integrator), and the
+    #      integrator after with_faces()): the radius is a property of the cell, not of the way it was obtained
+    from props.c12 import parse_routes_impl
+    got = run_cells_op(chk, op='routes')
+    if got is None:
+        return
+    recs, _ = got
+    for r in recs:
+        impl = parse_routes_impl(r.res)
+        if 'panic' in impl or 'panic' in impl.get('direct', {}):
+            continue
+        chk.count()
+        inp = parse_input(r.inp)
+        d = impl['direct']
+        rp = {'op': 'routes', 'ids': [r.id], 'family': r.family, 'record': r.line[:3000]}
+        for nm, vv in (('Voronoi::from(&integrator)', impl['via']), ('Voronoi::from(&integrator.with_faces())', impl.get('viaf'))):
+            if vv is None or 'panic' in vv or len(vv['cells']) != len(d['cells']):
+                continue
+            for i, (a, b) in enumerate(zip(vv['cells'], d['cells'])):
+                if a.sr != b.sr:
+                    chk.violation('impl-vs-impl', 'cell %d: safety radius reported through %s is %s, the direct build reports %s (record %d, %s)'
+                                  % (i, nm, a.sr if a.sr is None else float(a.sr), b.sr if b.sr is None else float(b.sr), r.id, r.family), rp, key='routes-radius')
+                    break
+        # the direct radius reaches every neighbour the cell shares a face with
+        for f in d['faces']:
+            if f.right is None or f.area is None or f.shift is not None:
+                continue
+            for (me, other) in ((f.left, f.right), (f.right, f.left)):
+                c = d['cells'][me]
+                if c.sr is None or c.volume == 0:
+                    continue
+                d2 = sum((inp.ngens[me][k] - inp.ngens[other][k]) ** 2 for k in range(3))
+                tol = Tol(inp)
+                if abs(f.area) > tol.area * 100 and d2 > (c.sr * (1 + Fraction(1, 10 ** 9))) ** 2:
+                    chk.violation('impl-vs-oracle', 'cell %d (direct build): neighbour %d with a face of area %.6g is farther (%.17g) than the safety radius %.17g (record %d, %s)'
+                                  % (me, other, float(f.area), float(d2) ** 0.5, float(c.sr), r.id, r.family), rp, key='neighbour')
+        chk.traces += 1
